@@ -79,6 +79,10 @@ def s2(name):
         return Catalogue("s2-wrappers2", [Shape("M", [
             F("a", 1, "message", wraps="int32"), F("b", 2, "message", wraps="int32"),
             F("c", 3, "message", wraps="string"), F("d", 4, "message", wraps="string")])], E)  # fmt: skip
+    if name == "names":
+        # hand-written dataclasses may use soft keywords and builtin names as field names
+        return Catalogue("s2-names", [Shape("M", [_n(F("type", 1, "int32")), _n(F("match", 2, "string")), F("case", 3, "bool"), _n(F("id", 4, "int64")),
+                                                  _n(F("list", 5, "uint32", "repeated")), _n(F("str", 6, "string", "optional"))])], E)  # fmt: skip
     if name == "packed":
         return Catalogue("s2-packed", [Shape("M", [
             F("a", 1, "sint32", "repeated"), F("f", 2, "fixed32", "repeated"), F("b", 3, "bool", "repeated"),
@@ -86,7 +90,7 @@ def s2(name):
     raise KeyError(name)
 
 
-S2_NAMES = ["mixed", "oneofs", "nested", "recursive", "mutual", "repmsg", "mapmsg", "optionals", "wrappers", "wrappers2", "packed"]
+S2_NAMES = ["mixed", "oneofs", "nested", "recursive", "mutual", "repmsg", "mapmsg", "optionals", "wrappers", "wrappers2", "names", "packed"]
 S1_KINDS = SCALARS + ["enum", "message"] + ["wrap:" + k for k in WRAPPER_OF]
 S1_MAP_VALUES = ["int32", "string", "bytes", "enum", "message", "double"]
 
